@@ -73,11 +73,16 @@ func NewObjectStream(stream *Stream) (*ObjectStream, error) {
 	// Get optional /Extends - reference to another object stream
 	var extends *IndirectRef
 	if extendsObj := stream.Dict.Get("Extends"); extendsObj != nil {
-		ref, ok := extendsObj.(*IndirectRef)
-		if !ok {
+		// The parser yields references as IndirectRef values; a pointer is
+		// accepted as well for dictionaries built by hand.
+		switch ref := extendsObj.(type) {
+		case IndirectRef:
+			extends = &ref
+		case *IndirectRef:
+			extends = ref
+		default:
 			return nil, fmt.Errorf("invalid /Extends type: %T", extendsObj)
 		}
-		extends = ref
 	}
 
 	os := &ObjectStream{
